@@ -666,6 +666,28 @@ theorem linCompute_post {cfg : Cfg} {d : Disc} {st : State} {all : Bool}
     · exact hinv.mono rfl rfl (fun y hy => hy) (fun y hy => List.mem_append_left _ hy)
   · rw [g.2.1]; simp
 
+theorem linTail_post {cfg : Cfg} {d : Disc} {st1 : State} {all : Bool}
+    {xs : List (Arr × Option Nat)} {h : Nat} (hcow : cfg.cow = true) (hinv : Inv d st1)
+    (hjac : st1.hasJac = true → st1.dJac ≠ [] →
+      ∃ w ∈ st1.jacLog, cmp cfg.tol (xs.map (·.1)) w = true ∧ ∀ kb ∈ st1.dJac, kb ∈ d.jacf w) :
+    LinPost cfg d (xs.map (·.1)) (linTail cfg d st1 all xs h).1 (linTail cfg d st1 all xs h).2 := by
+  unfold linTail
+  by_cases hc : (st1.hasJac && !st1.dJac.isEmpty &&
+      hasBlocks st1.dJac (linIn cfg all) (linOut cfg all)) = true
+  · simp only [hc, if_true]
+    simp only [Bool.and_eq_true, Bool.not_eq_true', List.isEmpty_eq_false_iff] at hc
+    exact ⟨hinv, Or.inr (hjac hc.1.1 hc.1.2)⟩
+  · simp only [hc, Bool.false_eq_true, if_false]
+    exact linCompute_post hcow hinv
+
+theorem linTail_inv {cfg : Cfg} {d : Disc} {st1 : State} {all : Bool}
+    {xs : List (Arr × Option Nat)} {h : Nat} (hcow : cfg.cow = true) (hinv : Inv d st1) :
+    Inv d (linTail cfg d st1 all xs h).1 := by
+  unfold linTail
+  split
+  · exact hinv
+  · exact (linCompute_post hcow hinv).inv
+
 /-- **Specification of `linearize`** (with execution) for the copying policies. -/
 theorem linearize_post {cfg : Cfg} {d : Disc} {st : State} {all : Bool}
     {xs : List (Arr × Option Nat)} {h : Nat}
@@ -683,13 +705,7 @@ theorem linearize_post {cfg : Cfg} {d : Disc} {st : State} {all : Bool}
       exact Or.inr h2
   · simp only [he, Bool.false_eq_true, if_false, if_true]
     have hp := execute_post (xs := xs) (h := h) hcow hcoh hinv
-    by_cases hc : ((execute cfg d st xs h).1.hasJac && !(execute cfg d st xs h).1.dJac.isEmpty &&
-        hasBlocks (execute cfg d st xs h).1.dJac (linIn cfg all) (linOut cfg all)) = true
-    · simp only [hc, if_true]
-      simp only [Bool.and_eq_true, Bool.not_eq_true', List.isEmpty_eq_false_iff] at hc
-      exact ⟨hp.inv, Or.inr (hp.jac hc.1.1 hc.1.2)⟩
-    · simp only [hc, Bool.false_eq_true, if_false]
-      exact linCompute_post hcow hp.inv
+    exact linTail_post hcow hp.inv hp.jac
 
 /-- Without execution only the consistency of the caches is claimed (the returned Jacobian is the
     discipline's current one when it is flagged valid: it is the caller who asserts that the
@@ -698,19 +714,15 @@ theorem linearize_inv {cfg : Cfg} {d : Disc} {st : State} {all exe : Bool}
     {xs : List (Arr × Option Nat)} {h : Nat}
     (hcow : cfg.cow = true) (hcoh : cfg.coh = true) (hinv : Inv d st) :
     Inv d (linearize cfg d st all exe xs h).1 := by
-  cases exe with
-  | true => exact (linearize_post hcow hcoh hinv).inv
-  | false =>
-    unfold linearize
-    by_cases he : linEarly cfg all = true
-    · simp only [he, if_true]
-      exact hinv.of_eq rfl rfl rfl rfl
-    · simp only [he, Bool.false_eq_true, if_false]
-      by_cases hc : (st.hasJac && !st.dJac.isEmpty &&
-          hasBlocks st.dJac (linIn cfg all) (linOut cfg all)) = true
-      · simp only [hc, if_true]; exact hinv
-      · simp only [hc, Bool.false_eq_true, if_false]
-        exact (linCompute_post hcow hinv).inv
+  unfold linearize
+  by_cases he : linEarly cfg all = true
+  · simp only [he, if_true]
+    exact hinv.of_eq rfl rfl rfl rfl
+  · simp only [he, Bool.false_eq_true, if_false]
+    apply linTail_inv hcow
+    cases exe with
+    | true => exact (execute_post hcow hcoh hinv).inv
+    | false => exact hinv
 
 /-! ### `step` -/
 
